@@ -198,7 +198,7 @@ PROPS["C13"] = dict(
     groups=[
         K("core", ["c13::"], functions=["SymbolVersionTable::{new,get_requirement,get_definition}", "VerNeedIterator/VerNeedAuxIterator/VerDefIterator/VerDefAuxIterator::next", "SymbolNamesIterator::next", "VersionIndex::{index,is_hidden}", "StringTable::get"],
           bounds="model 1x2 (verneed), 1x2 (verdef); versym 3 entries; symbol index any usize; byte order symbolic", timeout_s=900),
-        M(["L9"], ["C13.", "L9."], bounds="wiring through ElfBytes::symbol_version_table: section tables of 1..2 entries, every header field symbolic, both classes: the table handed out is SymbolVersionTable::new over exactly "
+        M(["L9"], ["C13.", "L9."], bounds="wiring through ElfBytes::symbol_version_table: section tables of 1..3 entries, every header field symbolic, both classes: the table handed out is SymbolVersionTable::new over exactly "
           "[versym range, entsize 2], VerNeed/VerDef iterators with count = sh_info, offset 0, data = the section's range and strings = the range of shdr[sh_link]"),
         K("core", ["c13t::"], tier="thorough", functions=["same"], bounds="2 files x 2 aux, 2 defs x 2 names, interleaved / slack layouts", timeout_s=3000, cbmc_args=["--max-field-sensitivity-array-size", "160"]),
     ],
@@ -289,8 +289,9 @@ PROPS["C20"] = dict(
     groups=[
         K("core", ["c20::"], functions=["ElfBytes::section_data_as_{rels,relas,strtab,notes}", "ElfBytes::segment_data_as_notes", "ElfBytes::section_header_by_name", "section_headers_with_strtab", "ParsingIterator::next", "StringTable::get"],
           bounds="typed views: constant 128-byte files, header argument fully symbolic, first 2 entries; by-name: generated 9-section file, query 0..3 symbolic ASCII bytes; unwind 6/28", timeout_s=1200, jobs=8),
-        M(["L6", "L8"], ["C20.", "L6."], bounds="find_common_data vs symbol_table/dynamic_symbol_table/dynamic on files with section and program tables of 1..2 entries each, every header field symbolic, at most one section of each kind, "
-          "PT_DYNAMIC only together with .dynamic, no SHF_COMPRESSED (ELF64); dynamic via .dynamic == [sh_offset,sh_size) and via PT_DYNAMIC == [p_offset,p_filesz)"),
+        M(["L6", "L6b", "L8"], ["C20.", "L6.", "L6b."], bounds="find_common_data vs symbol_table/dynamic_symbol_table/dynamic on files with section and program tables of 1..2 entries each, every header field symbolic, at most one section of each kind, "
+          "PT_DYNAMIC only together with .dynamic, no SHF_COMPRESSED (ELF64); dynamic via .dynamic == [sh_offset,sh_size) and via PT_DYNAMIC == [p_offset,p_filesz); "
+          "L6b: 5-section tables holding all five common kinds in each of the 5 rotations of their order, all other header fields symbolic: every member is found and is its section's designated range"),
     ],
     assumptions=["by-name queries are ASCII (valid UTF-8 by construction)"] + MIRSYM_ASSUME[:4],
 )
